@@ -261,3 +261,15 @@ PROPS["C01"] = dict(
     level_text="Sampled hostile inputs with systematic enumeration of (numeric slot x boundary value) on the templates; every case is judged by monitors observing the real execution.",
     level_note="Trusted base: the monitors in harness/src/mon.rs and the supervisor in wl/c01.rs. No claim for inputs larger than 256 KiB or for paths the navigation script does not call.",
 )
+
+PROPS["C14"] = dict(
+    title="RAG chunking is a faithful, budget-respecting partition",
+    level="exploration",
+    technique="in-process monitor over the chunks returned by HybridChunker::chunk and chunk_with_graph: every generated element carries its index, so conservation, multiplicity, order, fragment concatenation, budget (recounted with the same counter), heading and determinism are read off each execution's output",
+    stages=[rust()],
+    rule="element sequences of 0-60 elements over all nine Element variants (empty, delimiter-only, one giant sentence, long words, tables, images), parent_heading correct / absent / stale / unknown, duplicate title texts, elements before the first title; x max_tokens {0,1,2,7,64,512} x merge on/off x both merge policies x propagate on/off x 4 context modes x 5 token counters (word proxy, ceil(chars/4), separator-charging, sub-word, and one that lies about additivity: excluded from the budget clause). Non-trivial: >= 2 elements and >= 1 chunk; distinct by (case, entry point)",
+    assumptions=["whitespace is not content: fragments are compared with all whitespace removed", "a chunk's heading may be either its first element's parent_heading or the text of the title that precedes it in the input; a title governs itself", "a list item split at sentence boundaries may come back as paragraph fragments"],
+    floors={"quick": {"evaluations": 60000, "distinct": 30000, "counters": {"split_elements": 1000, "oversized_chunks": 1000}}, "thorough": {"evaluations": 4000000, "distinct": 2000000}},
+    level_text="Sampled sequences; the oracle is exact on each (unique indices), so any loss, duplication, reordering, unmeasured budget approval or wrong heading in an explored case is reported.",
+    level_note="Trusted base: the generator's model of 'governing title' and the counters defined in harness/src/wl/c14.rs.",
+)
